@@ -161,17 +161,20 @@ META.update({
     },
 })
 
-CLIENT_NOTE = (PROOF_NOTE + "L1 = atomic-operation model: each event (Start, datagram, tick, Close) runs to completion; "
-               "this is how the harness drives the real client. Not carried: interleavings inside an event (L2 / known "
-               "finding K1), the race detector's verdict, goroutine exit, the default ticker collector. ")
+CLIENT_NOTE = (PROOF_NOTE + "L1 = atomic-operation model: each event (Start, datagram, tick, Close) runs to completion. L2 "
+               "(Model/ClientL2.lean) adds three suspension points (Start's first Write, a retransmission's "
+               "ClientAgent.Start and its Write) with concrete theorems and the same schedules driven on the real client; "
+               "the L1 theorems are the L2 theorems for connections and agents that do not block (run2_l1). Not carried: "
+               "finer interleavings, the race detector's verdict, goroutine exit, the default ticker collector. ")
 META.update({
     "C10": {
-        "text": "Proof over the L1 model of client.go+agent.go, for histories of ANY length over ANY number of ids: a handler "
-                "used by one Start is invoked at most once; never if not started; a failed Start registers nothing; after a "
-                "successful Start: invocations + still-registered = 1 in every continuation (run_eq: exact conservation). "
-                "The remaining gap to 'exactly once' is a registration that survives Close = known finding F6, which the "
-                "implementation-side predicate reports as KNOWN-FINDING. Correspondence: exhaustive + random histories "
-                "against the real client.",
+        "text": "Proof over the L1 model of client.go+agent.go, for histories of ANY length over ANY number of ids: THE FULL "
+                "STATEMENT exactly_once_by_close (any history, a Start that returns nil, any continuation, Close: the "
+                "handler has been invoked exactly once when Close returns), resting on the invariant that the client's "
+                "table is a subset of the agent's; at most once; never if not started; any error of Start registers "
+                "nothing. False on the pinned tree (F6, K1, K1b, F13: repaired in /repo, each kept as corpus replay); the "
+                "L2 exception F12 (a response overtaking a failing first Write) is a known finding with a theorem. "
+                "Correspondence: exhaustive + random histories, L2 schedules and Do against the real client.",
         "note": CLIENT_NOTE,
         "technique": "Lean 4 conservation invariant over all histories (L1) + history correspondence with predicates",
     },
@@ -179,8 +182,10 @@ META.update({
         "text": "Proof (L1): every transaction write in every history is byte-identical to the message of the Start that "
                 "registered its handler; a retransmission needs a registered transaction with attempts left and an error "
                 "event, which the agent emits only strictly after the deadline now+(attempt+1)*rto computed from the RTO "
-                "captured at Start; SetRTO leaves the table alone; attempt limit 0 never retransmits. The per-Start count "
-                "<= n+1 over whole histories is decided by the implementation-side predicate.",
+                "captured at Start; SetRTO leaves the table alone; attempt limit 0 never retransmits; over whole histories a "
+                "request is written at most n+1 times (writes_at_most_n_plus_1, potential argument). L2 exception F14 "
+                "(one more write after completion when the response overtakes a retransmission inside ClientAgent.Start) is "
+                "a known finding with a theorem.",
         "note": CLIENT_NOTE + "That Start copies the caller's message is decided by the correspondence (caller buffer "
                 "overwritten after each Start).",
         "technique": "Lean 4 provenance invariant over all histories (L1) + history correspondence with predicates",
@@ -190,13 +195,14 @@ META.update({
                 "exactly that id (any number of in-flight transactions, any arrival order); the message seen is the "
                 "received datagram (first 1024 bytes); unknown ids go to the fallback only; undecodable datagrams are "
                 "no-ops. Recycling of pooled transaction objects is below L1: sequential reuse is exercised by the "
-                "correspondence over thousands of transactions; the concurrent double-put is known finding K1.",
+                "correspondence over thousands of transactions with fresh pools per case; the concurrent double Put (K1, K1b) "
+                "was found by the L2 schedules and repaired.",
         "note": CLIENT_NOTE,
         "technique": "Lean 4 provenance invariant over all histories (L1) + history correspondence with predicates",
     },
     "C15": {
-        "text": "Proof (L1): first Close succeeds (nil/CloseErr), closes the connection once iff owned, invokes nobody, writes "
-                "nothing; later Closes return ErrClientClosed; after Close every Start/Indicate returns ErrClientClosed "
+        "text": "Proof (L1): first Close succeeds (nil/CloseErr), closes the connection once iff owned, completes the "
+                "transactions in flight with ErrAgentClosed (its only handler invocations), writes nothing; later Closes return ErrClientClosed; after Close every Start/Indicate returns ErrClientClosed "
                 "without writing and no operation produces any output. Goroutine exit and race freedom are observed "
                 "(Close must return; -race build), not proved.",
         "note": CLIENT_NOTE,
